@@ -21,6 +21,8 @@ pub(crate) enum Act {
     Alloc,
     /// clear (drop) traced slot 0 of self
     ClearSlot0,
+    /// enable automatic collection, then allocate: with the byte count above the threshold `Cc::new` itself starts a collection
+    AllocAuto,
     /// drop the program-held handle HELD[target] (the finalizer releases the last outside pointer to another structure)
     ReleaseHeld,
     /// store a clone of self into self's own traced slot 1 (resurrection into an unreachable cycle)
